@@ -374,7 +374,7 @@ func stripUnknown(m protoreflect.Message) {
 // mutateEncoding applies one of the C08 mutation operators.
 func mutateEncoding(t *rapid.T, b []byte) ([]byte, string) {
 	b = append([]byte{}, b...)
-	switch rapid.IntRange(0, 6).Draw(t, "mut") {
+	switch rapid.IntRange(0, 7).Draw(t, "mut") {
 	case 0:
 		if len(b) > 0 {
 			return b[:rapid.IntRange(0, len(b)-1).Draw(t, "trunc")], "truncate"
@@ -437,6 +437,23 @@ func mutateEncoding(t *rapid.T, b []byte) ([]byte, string) {
 				note = "rewire-type-nested"
 			}
 			return append(out, b[base+f.ValStart:]...), note
+		}
+	case 7: // a varint value with bits set beyond 32 (readers of 32-bit kinds truncate; bool readers must not)
+		fs, err := refwire.Walk(b)
+		var vs []refwire.Field
+		if err == nil {
+			for _, f := range fs {
+				if f.WT == refwire.WTVarint {
+					vs = append(vs, f)
+				}
+			}
+		}
+		if len(vs) > 0 {
+			f := rapid.SampledFrom(vs).Draw(t, "widefield")
+			hi := rapid.SampledFrom([]uint64{1 << 32, 1 << 33, 0xffffffff00000000, 1 << 63, 0x7fffffff00000000}).Draw(t, "widehi")
+			out := append([]byte{}, b[:f.ValStart]...)
+			out = refwire.AppendVarint(out, f.Varint&0xffffffff|hi)
+			return append(out, b[f.End:]...), "widen-varint"
 		}
 	case 4:
 		return append(b, rapid.SliceOfN(rapid.Byte(), 1, 8).Draw(t, "tail")...), "append-garbage"
@@ -586,7 +603,7 @@ func TestC07(t *testing.T) {
 }
 
 func TestC08(t *testing.T) {
-	rec := ev.New("C08", ruleValues+"valid encodings are mutated (truncate at an offset, overwrite a byte with {00,7f,80,ff,b^1,b^2,b^4,b^80}, inflate a length prefix to {remaining+1, 2^31-1, 2^31, 2^32, 2^40, 2^63, 2^64-1}, change a key's wire type incl. groups at the top level or inside a nested payload / map entry, append garbage, hostile length for an existing number, plain random bytes); the quick tier also truncates at every offset and overwrites every byte of the sweep encodings of each type; oracle: returns (no panic), bytes allocated <= 4 KiB + len*(576+2*S), and when both decoders accept the messages are equal; non-trivial = the input is not a valid canonical encoding; distinct by (type, bytes)")
+	rec := ev.New("C08", ruleValues+"valid encodings are mutated (truncate at an offset, overwrite a byte with {00,7f,80,ff,b^1,b^2,b^4,b^80}, inflate a length prefix to {remaining+1, 2^31-1, 2^31, 2^32, 2^40, 2^63, 2^64-1}, change a key's wire type incl. groups at the top level or inside a nested payload / map entry, append garbage, a varint value with bits beyond 32 set, hostile length for an existing number, plain random bytes); the quick tier also truncates at every offset and overwrites every byte of the sweep encodings of each type; oracle: returns (no panic), bytes allocated <= 4 KiB + len*(576+2*S), and when both decoders accept the messages are equal; non-trivial = the input is not a valid canonical encoding; distinct by (type, bytes)")
 	defer rec.Write()
 	useRecorder(rec)
 	defer func() { t.Log(rec.Summary()); fmt.Print(rec.SurveyReport()) }()
